@@ -157,9 +157,11 @@ def check_case(case, how=("topdown", "call", "plot", "batch")):
                     compare("batch", got, ref, grid, vs, "run_scenarios", case)
             finally:
                 b.destroy()
-    except RecursionError:
-        info["status"] = "recursion"
-        return info, []
+    except RecursionError as e:
+        # the generated models are acyclic and short (the unchanged tree never gets near the recursion limit on them): an
+        # evaluation that does not terminate is a failure to report the Euler value
+        feats = sorted(SM.features(case) - {"converter", "flow", "biflow"})
+        vs.append(Violation("eval-crash:RecursionError:%s" % "+".join(feats), "evaluation did not terminate (%r); model %r" % (e, SM.sym_show(case))))
     except Exception as e:
         feats = sorted(SM.features(case) - {"converter", "flow", "biflow"})
         vs.append(Violation("eval-crash:%s:%s" % (type(e).__name__, "+".join(feats)), "evaluation raised %r; model %r" % (e, SM.sym_show(case))))
@@ -187,6 +189,9 @@ def plan(tier):
     for i in range(16):
         # half of the shards use every built-in, the others focus on one family each so that single-feature models are common
         focus = [None, {"lookup"}, {"delay"}, {"smooth"}, {"trend"}, {"step", "time"}, {"pulse"}, {"sinwave"}][i % 8]
+        if i == 8:
+            # hardly any built-in: plain functions of elements (min, max, abs, If, arithmetic) dominate, also inside stock equations
+            focus = {"time"}
         specs.append({"n": n, "max_n": mn, "allow": sorted(focus) if focus else None})
     return specs
 
